@@ -40,6 +40,16 @@ def main():
         'OverlapFilter', nl=2, nr=2, k=1, kmin=0, comp_ops=ops, thresholds=[1], out_sim_score=[True, False],
         n_jobs=[1, 2], missing='sym', allow_missing=[False, True], props=['C01', 'C02', 'C06', 'C08', 'CRASH'],
         validate_every=50)))
+    # a left table keyed by its filter attribute (key column == filter column)
+    for f in ('OverlapFilter', 'SizeFilter'):
+        cfg = stages.filter_cfg(f, nl=2, nr=2, k=1, kmin=0, comp_ops=['>='], out_sim_score=[True] if f == 'OverlapFilter' else [False],
+                                n_jobs=[1], props=['C01', 'C02', 'C04', 'C06', 'C11', 'CRASH'], l_key_is_attr=True,
+                                validate_every=4)
+        cfg['thresholds'] = [1] if f == 'OverlapFilter' else [0.5]
+        ck.e2('keyed-by-attr-%s' % f, h_join.make(cfg))
+    ck.e2('keyed-by-attr-overlap_join', h_join.make(stages.join_cfg(
+        'overlap_join', nl=2, nr=2, k=1, kmin=0, comp_ops=['>='], n_jobs=[1], l_key_is_attr=True,
+        props=['C01', 'C02', 'C06', 'C11', 'CRASH'], validate_every=4)))
     ck.finish()
 
 
